@@ -129,4 +129,18 @@ example (T : Nat) (eb : DEnvB 0) (rs : DRestruct 0) :
     hh rfl⟩
   rw [hc]; rfl
 
+/-- an INLINED root data slab: `PopIterate` stores nothing (`if !m.Inlined()`), the new root has the inlined prefix
+    (14 + 8), the storage still has the old entry -/
+def mdp_exInl : OMap 0 := ⟨0, ({ mdp_exA with root := true, inlined := true } : MDataSlab 0), 0, 1, 0⟩
+def mdp_exInlSt : MHSt 0 := { heap := md_heapOf 0 mdp_exInl.root (some (md_extra mdp_exInl)), ctx := ⟨7, [], []⟩ }
+
+example (T : Nat) (eb : DEnvB 0) (rs : DRestruct 0) :
+    ∃ (m' : OMap 0) (s' : MHSt 0),
+      OrderedMap_PopIterate (envD T eb rs) 0 (md_map mdp_exInl mdp_exInlSt) = some (none, md_map m' s') ∧
+      (md_map m' s').root = .dataSlab { header := ⟨⟨1, 2⟩, 22, 0⟩, elements := ⟨[], [], 8, 0⟩,
+                                        extraData := some (0, 0, 0), inlined := true } ∧
+      s'.popped = [(mdp_exKA, default)] ∧ s'.ctx.eff = [] ∧ s'.heap ⟨1, 2⟩ = mdp_exInlSt.heap ⟨1, 2⟩ :=
+  ⟨_, _, Ob_OrderedMap_PopIterate_heap T eb rs 0 mdp_exInl mdp_exInlSt (Nat.le_refl _) rfl (by decide) trivial rfl
+    trivial, rfl, rfl, rfl, rfl⟩
+
 end Atree.TransEq
